@@ -1,4 +1,5 @@
 import Blackbird.Props.C07
+import Blackbird.Props.C07Script
 #print axioms Blackbird.C07_call_eq_inline
 #print axioms Blackbird.C07_template_call_eq_inline
 #print axioms Blackbird.C07_calls_independent
@@ -7,3 +8,4 @@ import Blackbird.Props.C07
 #print axioms Blackbird.C07_path_resolution
 #print axioms Blackbird.C07_nested_includes_merged
 #print axioms Blackbird.C07_legacy_call_site_wrong
+#print axioms Blackbird.C07_template_call_eq_substituted_inline
